@@ -457,7 +457,7 @@ def query_obs(a, b, n, raw=False):
         contig = _err(e)
     iprs = plist('%d:%d-%d' % (r.version, r.first, r.last) for r in a.iter_ipranges())
     if a.size <= 64:
-        it = plist('%d:%d' % (ip.version, int(ip)) for ip in a)
+        it = plist('%d:%d' % (ip.version, int(ip)) for ip in list(common.paired(lambda: iter(a))))
     else:
         it = '-'
     if raw:
